@@ -262,6 +262,9 @@ func (fr *Frame) callFunc(s *State, callee *types.Func, recv *Val, args []*Val, 
 			args[i] = fr.convertTo(s, args[i], sig.Params().At(i).Type())
 		}
 	}
+	if r, ok := fr.reflectModel(s, callee, recv, args, call); ok {
+		return r
+	}
 	if r, ok := fr.streamModel(s, callee, recv, args); ok {
 		return r
 	}
@@ -735,6 +738,23 @@ func (fr *Frame) evalAppend(s *State, call *ast.CallExpr, t types.Type) *Val {
 // holding a copy. The resulting array is a declared constant described by quantified facts over absolute
 // positions (same shape as appendSlice), so that chains of appends stay matchable.
 func (fr *Frame) appendOne(s *State, cur, v *Val, t types.Type, hn, hs, es string) *Val {
+	if len(fr.vc.stale) > 0 {
+		// bounded fallback: the store/ite form, which the solvers can build models for
+		inplace := fmt.Sprintf("(< (sl_len %s) (sl_cap %s))", cur.S, cur.S)
+		h := s.heap(hn, hs)
+		hIn := fmt.Sprintf("(store %s (sl_ref %s) (store (select %s (sl_ref %s)) (ix (sl_off %s) (sl_len %s)) %s))", h, cur.S, h, cur.S, cur.S, cur.S, v.S)
+		rIn := fmt.Sprintf("(mk_Slice (sl_ref %s) (sl_off %s) (+ (sl_len %s) 1) (sl_cap %s))", cur.S, cur.S, cur.S, cur.S)
+		ref := s.alloc()
+		newArr := fr.vc.declare("grown", fmt.Sprintf("(Array Int %s)", es))
+		newCap := fr.vc.declare("newcap", "Int")
+		s.assume(fmt.Sprintf("(> %s (sl_len %s))", newCap, cur.S))
+		s.assume(fmt.Sprintf("(forall ((i Int)) (! (=> (and (<= 0 i) (< i (sl_len %s))) (= (select %s i) (select (select %s (sl_ref %s)) (ix (sl_off %s) i)))) :pattern ((select %s i))))",
+			cur.S, newArr, h, cur.S, cur.S, newArr))
+		hGrow := fmt.Sprintf("(store %s %s (store %s (sl_len %s) %s))", h, ref, newArr, cur.S, v.S)
+		rGrow := fmt.Sprintf("(mk_Slice %s 0 (+ (sl_len %s) 1) %s)", ref, cur.S, newCap)
+		s.setHeap(hn, hs, ite(inplace, hIn, hGrow))
+		return &Val{T: t, S: fr.vc.define("app", "Slice", ite(inplace, rIn, rGrow))}
+	}
 	h := s.heap(hn, hs)
 	la := "(sl_len " + cur.S + ")"
 	fits := fr.vc.define("fits", "Bool", fmt.Sprintf("(< %s (sl_cap %s))", la, cur.S))
@@ -1141,4 +1161,78 @@ func (fr *Frame) nonEscapingBigLocals() []*types.Var {
 		}
 	}
 	return res
+}
+
+// reflectModel: the one reflection idiom of this code base, an indexed view of a struct whose fields are all
+// unsigned integers: v := reflect.ValueOf(structValue); v.NumField(); v.Field(i).Uint().
+// ValueOf keeps the struct value (Val.Dyn), Field keeps the index (Val.Multi), Uint selects by index.
+func (fr *Frame) reflectModel(s *State, f *types.Func, recv *Val, args []*Val, call *ast.CallExpr) ([]*Val, bool) {
+	n := fullName(f)
+	sig := f.Type().(*types.Signature)
+	switch n {
+	case "reflect.ValueOf":
+		if len(args) != 1 || args[0] == nil {
+			return nil, false
+		}
+		src := args[0]
+		if src.Dyn != nil {
+			src = src.Dyn // boxed into interface{} by the call
+		}
+		st, ok := src.T.Underlying().(*types.Struct)
+		if !ok {
+			return nil, false
+		}
+		for i := 0; i < st.NumFields(); i++ {
+			b, ok := st.Field(i).Type().Underlying().(*types.Basic)
+			if !ok || b.Info()&types.IsUnsigned == 0 {
+				return nil, false
+			}
+		}
+		fr.eng.trustedUsed["model:reflect.ValueOf/NumField/Field/Uint as an indexed view of a struct of unsigned integers"] = true
+		v := fr.freshVal(s, sig.Results().At(0).Type(), "rv")
+		v.Dyn = src
+		return []*Val{v}, true
+	case "reflect.Value.NumField":
+		if recv == nil || recv.Dyn == nil {
+			return nil, false
+		}
+		st, ok := recv.Dyn.T.Underlying().(*types.Struct)
+		if !ok {
+			return nil, false
+		}
+		return []*Val{{T: sig.Results().At(0).Type(), S: fmt.Sprintf("%d", st.NumFields())}}, true
+	case "reflect.Value.Field":
+		if recv == nil || recv.Dyn == nil || len(args) != 1 {
+			return nil, false
+		}
+		st, ok := recv.Dyn.T.Underlying().(*types.Struct)
+		if !ok {
+			return nil, false
+		}
+		fr.vc.oblige(s, "idx", fmt.Sprintf("(and (<= 0 %s) (< %s %d))", args[0].S, args[0].S, st.NumFields()), call.Pos(), "reflect: Field index out of range")
+		v := fr.freshVal(s, sig.Results().At(0).Type(), "rf")
+		v.Dyn = recv.Dyn
+		v.Multi = []*Val{args[0]}
+		return []*Val{v}, true
+	case "reflect.Value.Uint":
+		if recv == nil || recv.Dyn == nil || len(recv.Multi) != 1 {
+			return nil, false
+		}
+		st, ok := recv.Dyn.T.Underlying().(*types.Struct)
+		if !ok {
+			return nil, false
+		}
+		si := fr.eng.structSort(recv.Dyn.T)
+		term := "0"
+		for i := st.NumFields() - 1; i >= 0; i-- {
+			fv := app(si.acc(i), recv.Dyn.S)
+			if i == st.NumFields()-1 {
+				term = fv
+			} else {
+				term = ite(eq(recv.Multi[0].S, fmt.Sprintf("%d", i)), fv, term)
+			}
+		}
+		return []*Val{{T: sig.Results().At(0).Type(), S: fr.vc.define("ruint", "Int", term)}}, true
+	}
+	return nil, false
 }
